@@ -234,7 +234,8 @@ func (e *Enc) mapInit(st *State, ref T, mt *types.Map) {
 
 func (e *Enc) mapGet(st *State, m Val, mt *types.Map, k Val) (Val, T) {
 	dom, vals, _, _ := e.mapHeaps(st, mt)
-	ok := Select(Select(dom, m.L[0]), k.L[0])
+	// reading a nil map finds nothing
+	ok := And(Not(Eq(m.L[0], IntLit64(IntS, 0))), Select(Select(dom, m.L[0]), k.L[0]))
 	sh := e.shape(mt.Elem())
 	v := Val{Typ: mt.Elem(), L: make([]T, len(sh))}
 	for i := range sh {
